@@ -73,6 +73,21 @@ def gen_cases(chk):
             dims = ",".join("%x" % v for v in [0] * (5 - len(t)) + list(t))
             grp = ["rt %x %s %s 0 %s %s 0 %s %s" % (ty, dims, dims, dbits(absb), dbits(1e-3), cfg, data) for cfg in configs]
             groups.append(grp)
+    # large incompressible arrays of every element width: the verbatim stream of 4+md+8+1+w*N bytes is what the unwrap buffers of the
+    # decoder entries are sized for (a 1 000 000-byte minimum hides anything below ~125000 8-byte / 250000 4-byte elements)
+    big = [(1, 130000), (9, 130000), (8, 130000), (0, 260000), (7, 260000), (5, 520000), (2, 1040000)] if not thorough else \
+          [(ty, nn) for ty in range(10) for nn in (130000, 260000, 520000, 1040000)]
+    for ty, nn in big:
+        dims = "0,0,0,0,%x" % nn
+        if ty < 2:
+            scale, off, absb = 1.0, 0.0, (1e-300 if ty == 1 else 1e-30)
+        else:
+            w = {2: 1, 3: 1, 4: 2, 5: 2, 6: 4, 7: 4, 8: 8, 9: 8}[ty]
+            # wide enough to be incompressible, narrow enough that no difference of two values leaves the C type of the kernels' intermediates
+            scale = {1: 30.0, 2: 8e3, 4: 1e8, 8: 1e18}[w]
+            off, absb = (2 * scale if ty in (2, 4, 6, 8) else 0.0), 1.0
+        data = "g:%d:%x:%x:%s:%s" % (7 if ty < 2 else 1, rng.getrandbits(20), nn, dbits(scale), dbits(off))
+        groups.append(["rt %x %s %s 0 %s %s 0 %s %s" % (ty, dims, dims, dbits(absb), dbits(1e-3), cfg, data) for cfg in (configs[0], configs[1], configs[5])])
     return lz, sn, groups
 
 
